@@ -45,11 +45,11 @@ MAP = {
 }
 
 OPS = [
-    (r"(?<![<>=!\-])<=(?!=)", "<"), (r"(?<![<>=!\-])<(?![<=])", "<="), (r"(?<![<>=!\-])>=(?!=)", ">"),
-    (r"(?<![<>=!\-&|])>(?![>=])", ">="), (r"==", "!="), (r"!=", "=="), (r"&&", "||"), (r"\|\|", "&&"),
+    # comparison operators as rustfmt writes them (blanks on both sides: generics and arrows are not touched)
+    (r" <= ", " < "), (r" < ", " <= "), (r" >= ", " > "), (r" > ", " >= "), (r" == ", " != "), (r" != ", " == "),
+    (r" && ", " || "), (r" \|\| ", " && "),
     (r"\+ 1\b", "+ 0"), (r"- 1\b", "- 0"), (r"\b16\b", "15"), (r"\b12\b", "13"), (r"\b4\b", "5"), (r"\b8\b", "7"),
     (r"\btrue\b", "false"), (r"\bfalse\b", "true"), (r"\.min\(", ".max("), (r"\.max\(", ".min("),
-    (r"\bSome\((\w+)\) =>", r"Some(_\1) if false =>"),
 ]
 
 
